@@ -46,18 +46,43 @@ class World:
         s = case["setup"]
         self.reals = ["x%d" % i for i in range(len(s["reals"]))]
         self.cplx = ["c%d" % i for i in range(len(s["cplx"]))]
-        for n, v in zip(self.reals, s["reals"]):
-            vm.add_real_var(n, value=v)
+        self.no_init = set()
+        for k, (n, v) in enumerate(zip(self.reals, s["reals"])):
+            if k in s.get("no_init", []):
+                # created without a start value (random in a range), as model
+                # parameters without configured values are
+                from tf_pwa.data import set_random_seed
+
+                set_random_seed(1000 + k)
+                vm.add_real_var(n, range_=(v - 0.5, v + 0.5))
+                self.no_init.add(n)
+            else:
+                vm.add_real_var(n, value=v)
         for n, (r, p, polar) in zip(self.cplx, s["cplx"]):
             vm.add_complex_var(n, polar=bool(polar))
             vm.set(n + "r", r, val_in_fit=False)
             vm.set(n + "i", p, val_in_fit=False)
         self.all_real_names = self.reals + [c + k for c in self.cplx for k in "ri"]
-        # ties
         self.tie_classes = []  # list of sets of real names
-        self.share_r = set()  # complex names that only share their radius
+        self.fixed = set()
+        self.bounds = {}
+        self.share_r = set()
         self.full_tied = []
+        if s.get("order", "tfb") == "fbt":
+            # the order the configuration loader applies: fix, bound, tie
+            self._do_fix(s)
+            self._do_bounds(s)
+            self._do_ties(s)
+            for t in self.tie_classes:
+                if t & self.fixed:
+                    self.fixed |= t
+        else:
+            self._do_ties(s)
+            self._do_fix(s)
+            self._do_bounds(s)
 
+    def _do_ties(self, s):
+        vm = self.vm
         def union(names):
             hit = [t for t in self.tie_classes if t & set(names)]
             new = set(names)
@@ -93,8 +118,8 @@ class World:
                     vm.set_share_r([a, b])
                     union([a + "r", b + "r"])
                     self.share_r |= {a, b}
-        # fixed (after ties, as the configuration does)
-        self.fixed = set()
+    def _do_fix(self, s):
+        vm = self.vm
         for k in s["fix"]:
             n = self.all_real_names[k % len(self.all_real_names)]
             if n[0] == "c":
@@ -110,8 +135,8 @@ class World:
                 m = [m for m in cls if m in vm.trainable_vars][0]
                 vm.set_fix(m)
                 self.fixed |= cls
-        # bounds on real variables
-        self.bounds = {}
+    def _do_bounds(self, s):
+        vm = self.vm
         for k, kind, lo, width in s["bounds"]:
             if not self.reals:
                 break
@@ -437,6 +462,8 @@ setup_st = st.fixed_dictionaries(
         "ties": st.lists(st.tuples(st.sampled_from(["real", "cplx", "share_r", "real_all"]), st.integers(0, 3), st.integers(0, 3)), max_size=3),
         "fix": st.lists(st.integers(0, 10), max_size=3),
         "bounds": st.lists(st.tuples(st.integers(0, 2), st.sampled_from(["two", "lower", "upper"]), st.floats(0.1, 2.0), st.floats(0.1, 2.0)), max_size=2),
+        "order": st.sampled_from(["tfb", "fbt"]),
+        "no_init": st.lists(st.integers(0, 2), max_size=2, unique=True),
     }
 )
 idx = st.integers(0, 10)
